@@ -450,6 +450,21 @@ def _check(sup, pid, tier, seed, workers, n_runs, time_cap, write_evidence, quie
     results = []
     for ji in sorted(res_by_job):
         results.extend(res_by_job[ji])
+    # inline determinism probe: the first two batches are executed a second time in fresh processes
+    det = {"reexecuted_runs": 0, "divergent": 0}
+    try:
+        again, _, _ = sup.run_jobs("_batch", [(pid, root, b, tier, 0, per_run_cap) for b in batches[:2]], min(2, workers), min(cap, 300))
+        first = {r["index"]: r.get("digest") for ji in (0, 1) if ji in res_by_job for r in res_by_job[ji]}
+        for ji in sorted(again):
+            for r in again[ji]:
+                if r["index"] in first:
+                    det["reexecuted_runs"] += 1
+                    if r.get("digest") != first[r["index"]]:
+                        det["divergent"] += 1
+        if det["divergent"]:
+            print(f"note: {det['divergent']} of {det['reexecuted_runs']} re-executed runs produced a different event digest (nondeterminism in the code under test or in the harness)")
+    except Exception as e:  # noqa: BLE001
+        det["error"] = repr(e)
     results.sort(key=lambda r: r["index"])
     for r in results:
         if "harness_error" in r:
@@ -578,6 +593,7 @@ def _check(sup, pid, tier, seed, workers, n_runs, time_cap, write_evidence, quie
             "stubbed_components": meta["STUBS"],
             "known_findings_hit": {kid: cnt for kid, (k, cnt) in sorted(known_hits.items())},
             "run_digest": digest([[r["index"], r["digest"]] for r in done]),
+            "determinism_probe": det,
         },
         "assumptions": meta["ASSUMPTIONS"],
         "wall_s": round(wall, 3),
